@@ -7,6 +7,7 @@ CONSTANTS
   Ops = {"newuser","setuser","deluser","getuser","list","restart","login","update1"}
   SubKinds = {"put","ren","del"}
   Thin = TRUE
+  XPw = TRUE
   Long = TRUE
   Rand = FALSE
 INIT Init
